@@ -184,6 +184,17 @@ func (w *worker) run(c caseT) {
 	}
 	if c.Script.UAct == svc.ActError {
 		r.Class("error." + c.Script.UErr.Kind)
+		if c.Script.UErr.Kind == "rpc-sentinel" {
+			// the same error VALUE returned to calls with different request ids
+			key := c.Script.UErr.Type + "|" + c.Script.UErr.Msg
+			sentinelMu.Lock()
+			prev, seen := sentinelIDs[key]
+			sentinelIDs[key] = c.RequestID
+			sentinelMu.Unlock()
+			if seen && prev != c.RequestID {
+				r.Class("sentinel.same-value-different-request-id")
+			}
+		}
 	}
 	if c.Script.UAct == svc.ActPanic {
 		r.Class("panic." + c.Script.UPanic.Kind)
@@ -255,6 +266,11 @@ func (w *worker) run(c caseT) {
 	r.Evals(1)
 }
 
+var (
+	sentinelMu  sync.Mutex
+	sentinelIDs = map[string]string{}
+)
+
 func asStall(err error, out **wire.StallError) bool {
 	if se, ok := err.(*wire.StallError); ok {
 		*out = se
@@ -286,7 +302,7 @@ func main() {
 	r.Assume("log levels outside the six protocol levels have no defined order: such messages (and all messages under an unknown requested level) may be present or absent, order preserved")
 	r.Require("outcome.value.pipe", "outcome.error.pipe", "outcome.panic.pipe", "outcome.value.http", "outcome.error.http", "outcome.panic.http",
 		"log.kept", "log.filtered", "log.order(>=2 kept)", "log.extras", "log.exception-level", "log.unknown-level",
-		"level.absent", "level.unknown", "level.EXCEPTION", "level.TRACE", "level.INFO", "reqid.empty", "reqid.set", "void", "http.real-listener")
+		"level.absent", "level.unknown", "level.EXCEPTION", "level.TRACE", "level.INFO", "reqid.empty", "reqid.set", "void", "http.real-listener", "sentinel.same-value-different-request-id")
 	for _, k := range svc.ErrKinds {
 		r.Require("error." + k)
 	}
